@@ -5,6 +5,7 @@ from .. import core
 from ..core import q, lst, natl, boolc, opt, pair
 from .. import pb, mesgen
 
+NAMING = True
 ID = "C02"
 ORACLE = "Oracle.C02"
 PROPS = "Props/C02.v"
